@@ -126,21 +126,116 @@ def bracket (r : Report) : List ExtEv :=
 def toExtended (es : List Event) : List ExtEv :=
   [.startTestRun] ++ ((consume (es.filter fun e => e.status != some .exist)).map bracket).flatten ++ [.stopTestRun]
 
+/-! ## consumers that raise
+The callback (`on_test`; for `StreamToExtendedDecorator` the wrapped result's outcome method) may raise at a
+hand-over.  `faults` lists the hand-overs of a run — numbered 0, 1, … in the order in which they are made — at
+which it does.  In `status()` the record is popped from the table *before* the callback runs, so the exception
+leaves `status()` with the table already cleaned; in `stopTestRun()` each record is `popitem()`ed before it is
+handed over, so an exception leaves `stopTestRun()` with the records not yet popped still in the table: a later
+`stopTestRun()` goes on with them.  The driver survives every exception and calls `stopTestRun()` again until
+it returns normally. -/
+structure FSt where
+  tbl : Tbl
+  n : Nat                  -- hand-overs made so far in this run
+deriving Repr
+
+/-- one `status()` call: new state, the record handed over (if any), whether the call raised -/
+def statusF (faults : List Nat) (s : FSt) (e : Event) : FSt × List Report × Bool :=
+  let r := step s.tbl e
+  match r.2 with
+  | [] => ({ tbl := r.1, n := s.n }, [], false)
+  | p :: _ => ({ tbl := r.1, n := s.n + 1 }, [p.2], faults.contains s.n)
+
+/-- the status calls of a run; `i` = index of the next event; result: state, hand-overs, indices of the calls that raised -/
+def runF (faults : List Nat) : FSt → Nat → List Event → FSt × List Report × List Nat
+  | s, _, [] => (s, [], [])
+  | s, i, e :: es =>
+    let r1 := statusF faults s e
+    let r2 := runF faults r1.1 (i + 1) es
+    (r2.1, r1.2.1 ++ r2.2.1, (if r1.2.2 then [i] else []) ++ r2.2.2)
+
+/-- one `stopTestRun()` call on the records still in the table, given in `popitem()` order: the records handed over,
+the records left in the table, the hand-over count, whether the call raised -/
+def stopLoop (faults : List Nat) : List (Key × Report) → Nat → List Report × List (Key × Report) × Nat × Bool
+  | [], n => ([], [], n, false)
+  | p :: rest, n =>
+    if faults.contains n then ([{ p.2 with ts1 := none }], rest, n + 1, true)
+    else
+      let x := stopLoop faults rest (n + 1)
+      ({ p.2 with ts1 := none } :: x.1, x.2)
+
+/-- the driver: `stopTestRun()` again and again until it returns normally (`fuel` bounds the number of calls);
+result: all hand-overs, the number of calls that raised -/
+def stopAll (faults : List Nat) : Nat → List (Key × Report) → Nat → List Report × Nat
+  | 0, _, _ => ([], 0)
+  | fuel + 1, l, n =>
+    let x := stopLoop faults l n
+    if x.2.2.2 then
+      let y := stopAll faults fuel x.2.1 x.2.2.1
+      (x.1 ++ y.1, y.2 + 1)
+    else (x.1, 0)
+
+structure Consumed where
+  handed : List Report          -- every record handed to the callback, in order (whether or not it raised there)
+  raisedAt : List Nat           -- indices of the status() calls that raised
+  stopRaises : Nat              -- how many stopTestRun() calls raised before one returned
+deriving DecidableEq, Repr
+
+/-- `startTestRun; status*; stopTestRun (repeated while it raises)` with a callback raising at `faults` -/
+def consumeF (faults : List Nat) (es : List Event) : Consumed :=
+  let r := runF faults { tbl := [], n := 0 } 0 es
+  let f := stopAll faults (r.1.tbl.length + 1) r.1.tbl.reverse r.1.n
+  { handed := r.2.1 ++ f.1, raisedAt := r.2.2, stopRaises := f.2 }
+
+/-- `PlaceHolder.run` into a result whose outcome method raises: the calls up to and including that one -/
+def bracketAborted (r : Report) : List ExtEv :=
+  match Generated.Stream.statusMap r.status with
+  | none => []
+  | some o => optTime r.ts0 ++ [.tags r.tags [], .startTest r.id] ++ optTime r.ts1 ++ [.outcome o r.id r.details]
+
+def bracketsF (faults : List Nat) : Nat → List Report → List ExtEv
+  | _, [] => []
+  | n, r :: rs => (if faults.contains n then bracketAborted r else bracket r) ++ bracketsF faults (n + 1) rs
+
+/-- `StreamToExtendedDecorator` over a result whose outcome methods raise at the hand-overs `faults`;
+`decorated.stopTestRun()` is reached by the `stopTestRun()` call that returns normally -/
+def toExtendedF (faults : List Nat) (es : List Event) : List ExtEv :=
+  [.startTestRun]
+    ++ bracketsF faults 0 (consumeF faults (es.filter fun e => e.status != some .exist)).handed
+    ++ [.stopTestRun]
+
 /-! ## C10: input = a list of runs on the same consumer objects -/
+structure Run where
+  events : List Event
+  faults : List Nat         -- hand-overs (0-based, per consumer) at which the consumer's callback raises
+deriving DecidableEq, Repr
+
 structure RunTrace where
   dict : List Report        -- arguments of StreamToDict's on_test, in call order
-  summary : Summary         -- public attributes of StreamSummary after stopTestRun
+  dictRaised : List Nat     -- status() calls on StreamToDict that raised
+  dictStopRaises : Nat      -- stopTestRun() calls on StreamToDict that raised
+  summary : Summary         -- public attributes of StreamSummary after stopTestRun (its consumer never raises)
   ext : List ExtEv          -- calls received by the extended result behind StreamToExtendedDecorator
+  extRaised : List Nat      -- status() calls that raised, counted among the events that are not `exists` (those are dropped)
+  extStopRaises : Nat
+  realStarted : List Nat    -- ids for which a real testtools.TestResult behind a second StreamToExtendedDecorator saw startTest
 deriving DecidableEq, Repr
 
 structure Input where
-  runs : List (List Event)
+  runs : List Run
 deriving Repr
 
 abbrev Trace := List RunTrace
 
-def modelRun (es : List Event) : RunTrace :=
-  { dict := consume es, summary := summarise (consume es), ext := toExtended es }
+def modelRun (r : Run) : RunTrace :=
+  let d := consumeF r.faults r.events
+  let x := consumeF r.faults (r.events.filter fun e => e.status != some .exist)
+  { dict := d.handed, dictRaised := d.raisedAt, dictStopRaises := d.stopRaises
+    summary := summarise (consume r.events)
+    ext := toExtendedF r.faults r.events
+    extRaised := x.raisedAt
+    extStopRaises := x.stopRaises
+    realStarted := (consume (r.events.filter fun e => e.status != some .exist)).map (·.id) }
 
 def model (i : Input) : Trace := i.runs.map modelRun
 
